@@ -1,10 +1,39 @@
 """Which units (functions under contract, bounded stand-ins, static obligations) decide which property."""
 
+COMMON_STATIC = ["plain_attributes", "schema_complete"]
+
+C19_QUERIES = []
+for owner, kind, states in (("BaseWorkflow", "task", ["none", "ready", "working", "finished"]),
+                            ("BaseProduct", "component", ["none", "ready", "working", "finished"]),
+                            ("BaseTeam", "worker", ["free", "working"]),
+                            ("BaseWorkplace", "facility", ["free", "working"])):
+    C19_QUERIES.append("%s.__extract_state_%s_list" % (owner, kind))
+    for s in states:
+        C19_QUERIES.append("%s.extract_%s_%s_list" % (owner, s, kind))
+
 PROPS = {
     "C19": {
-        "inv": ["BaseTask.get_time_list_for_gannt_chart"],
+        "inv": ["BaseTask.get_time_list_for_gannt_chart", "BaseComponent.get_time_list_for_gannt_chart",
+                "BaseWorker.get_time_list_for_gannt_chart", "BaseFacility.get_time_list_for_gannt_chart",
+                "BaseTask.create_data_for_gantt_plotly", "BaseComponent.create_data_for_gantt_plotly",
+                "BaseProject.set_last_datetime"] + C19_QUERIES,
         "bounded": [],
-        "static": [],
-        "explanation": "run-length encoders, row builders, state queries and set_last_datetime against their specification",
+        "static": COMMON_STATIC + ["c19_margin_additive"],
+        "assumptions": [
+            "finish_margin is an integer in the encoder/row proofs; static:margin-additive shows the parameter is only "
+            "added to emitted lengths, so results for a real margin m are the integer-margin results shifted by m",
+            "datetime/timedelta arithmetic: uninterpreted additive action, strftime uninterpreted (trusted, DESIGN 2.6)",
+            "extract_*_list: requested times are >= 0 (negative indices would wrap around in python)",
+            "not under contract: row builders of team/workplace (per-member concatenation) and the concatenating "
+            "create_data_for_gantt_plotly of workflow/product/organization",
+        ],
+        "level_text": "Every listed function is verified against its contract for all inputs (all log lengths and contents over "
+                      "every enum member, all time lists, dates, units) by loop invariants: no unrolling bound. A failing "
+                      "obligation names the clause (e.g. working-cover) and is replayed on the real classes.",
+        "level_note": "Trusted: pyvc VC generator, z3/cvc5, builtin axioms (enumerate, list.append, set, list(set)), datetime as "
+                      "uninterpreted additive action; finish_margin integer in the proof + static additivity argument; floats as reals.",
+        "design_ref": "DESIGN.md section 6 C19",
+        "explanation": "run-length encoders (all enum members), row builders of task/component, state queries and "
+                       "set_last_datetime against their specification, unbounded (loop invariants)",
     },
 }
